@@ -95,11 +95,16 @@ Fixpoint strictly_increasing (l : list T) : bool :=
 Definition scale (dim : T) (l : list T) : list T :=
   if ngtb Ops dim (n0 Ops) then map (fun v => (v * dim)%num) l else l.
 
+(* order of the source: the two length checks, "Transform units" on both tables, and only then the strict-increase loop,
+   on the CONVERTED x_values (the multiplication can round two abscissae onto one double, or onto inf) *)
 Definition construct (xs0 ys0 : list T) (x_dim f_dim : T) : res itab :=
   if negb (Nat.eqb (length xs0) (length ys0)) then Exit
   else if Nat.ltb (length xs0) 2 then Exit
-  else if negb (strictly_increasing xs0) then Exit
-  else Ok (build (scale x_dim xs0) (scale f_dim ys0)).
+  else
+    let xs := scale x_dim xs0 in
+    let ys := scale f_dim ys0 in
+    if negb (strictly_increasing xs) then Exit
+    else Ok (build xs ys).
 
 (** Constructor Interpolation(data, x_dim, f_dim) from rows (x, f) *)
 Fixpoint split_rows (data : list (list T)) : res (list T * list T) :=
